@@ -28,3 +28,70 @@ pub fn x_btree_symkey() {
 }
 
 
+
+pub fn six_fmt_stub(_args: core::fmt::Arguments<'_>) -> String { crate::util::s(*b"6.0000000000") }
+
+#[kani::proof]
+#[kani::unwind(16)]
+#[kani::stub(std::hash::RandomState::new, crate::util::fixed_random_state)]
+#[kani::stub(alloc::fmt::format, six_fmt_stub)]
+pub fn x_write_float_concrete() {
+    let options = grass_compiler::Options::default().style(grass_compiler::OutputStyle::Compressed);
+    let map = grass_compiler::codemap::CodeMap::new();
+    let t = grass_compiler::verif::serializer_float(-6.000000000000455, &options, &map, crate::util::span(0));
+    assert!(t.len() == 2);
+    assert!(t[0] == b'-');
+    assert!(t[1] == b'6');
+    core::mem::forget((t, options, map));
+}
+
+#[kani::proof]
+#[kani::unwind(8)]
+pub fn x_vec_append_symlen() {
+    // a String of symbolic length 1..=3 with symbolic ASCII content, appended to an empty pre-sized Vec
+    let b: [u8; 3] = kani::any();
+    kani::assume(b[0] < 0x80 && b[1] < 0x80 && b[2] < 0x80);
+    let n: usize = kani::any();
+    kani::assume(n >= 1 && n <= 3);
+    let mut s = String::with_capacity(3);
+    let full = crate::util::s(b);
+    s.push_str(&full[..n]);
+    let mut v: Vec<u8> = Vec::with_capacity(32);
+    v.append(&mut s.into_bytes());
+    assert!(v.len() == n);
+    assert!(v[0] == b[0]);
+    if n >= 2 { assert!(v[1] == b[1]); }
+    if n >= 3 { assert!(v[2] == b[2]); }
+    core::mem::forget((v, full));
+}
+
+#[kani::proof]
+#[kani::unwind(16)]
+#[kani::stub(alloc::vec::Vec::append, crate::util::vec_append_stub)]
+pub fn x_trim_slice_append() {
+    let d: [u8; 12] = kani::any();
+    kani::assume(d[1] == b'.');
+    let mut i = 0;
+    while i < 12 {
+        if i != 1 { kani::assume(d[i] >= b'0' && d[i] <= b'9'); }
+        i += 1;
+    }
+    kani::assume(d[0] == b'0' && d[2] == b'3' && d[3] == b'0' && d[4] == b'0' && d[5] == b'0' && d[6] == b'0' && d[7] == b'0' && d[8] == b'0' && d[9] == b'0' && d[10] == b'0' && d[11] == b'0');
+    let formatted = crate::util::s(d);
+    let mut buffer = String::with_capacity(3);
+    let trimmed = formatted.trim_end_matches('0').trim_end_matches('.');
+    if trimmed.starts_with("0.") {
+        buffer.push_str(&trimmed[1..]);
+    } else {
+        buffer.push_str(trimmed);
+    }
+    if buffer.is_empty() || buffer == "-" || buffer == "-0" {
+        buffer = "0".to_owned();
+    }
+    let mut v: Vec<u8> = Vec::with_capacity(32);
+    v.append(&mut buffer.into_bytes());
+    assert!(v.len() == 2);
+    assert!(v[0] == b'.');
+    assert!(v[1] == b'3');
+    core::mem::forget((v, formatted));
+}
